@@ -181,6 +181,61 @@ impl Machine {
     pub fn step1(&mut self) -> Result<(), String> {
         self.rt.step(1).map_err(|e| format!("{e}"))
     }
+
+    pub fn step_n(&mut self, n: usize) -> Result<(), String> {
+        self.rt.step(n).map_err(|e| format!("{e}"))
+    }
+}
+
+/// machine.split: one scenario (host events ignored), reference run = `step(1)` x total with an observation after
+/// every step; then for every partition a fresh machine is driven with one `step(part)` call per part and observed
+/// after each call.  The harness only reports; the comparison is done by the Python side (C07).
+fn split_one(sc: &Value) -> Value {
+    let total = get_u64(sc, "steps", 0) as usize;
+    let mut m = match create(sc) {
+        Ok(m) => m,
+        Err(e) => return json!({"err": format!("setup: {e}")}),
+    };
+    let mut reference: Vec<Value> = Vec::with_capacity(total);
+    for k in 0..total {
+        let r = std::panic::catch_unwind(std::panic::AssertUnwindSafe(|| m.step1()));
+        match r {
+            Ok(Ok(())) => reference.push(m.observe()),
+            Ok(Err(e)) => return json!({"err": format!("setup: reference step {k}: {e}")}),
+            Err(_) => return json!({"err": format!("setup: reference step {k}: panic")}),
+        }
+    }
+    let mut runs: Vec<Value> = Vec::new();
+    if let Some(parts_list) = sc.get("parts").and_then(|v| v.as_array()) {
+        for parts in parts_list {
+            let parts: Vec<usize> = parts
+                .as_array()
+                .map(|a| a.iter().map(|x| x.as_u64().unwrap_or(0) as usize).collect())
+                .unwrap_or_default();
+            let mut mm = match create(sc) {
+                Ok(m) => m,
+                Err(e) => return json!({"err": format!("setup: {e}")}),
+            };
+            let mut obs: Vec<Value> = Vec::new();
+            let mut error = Value::Null;
+            for p in parts.iter() {
+                let r = std::panic::catch_unwind(std::panic::AssertUnwindSafe(|| mm.step_n(*p)));
+                match r {
+                    Ok(Ok(())) => obs.push(mm.observe()),
+                    Ok(Err(e)) => {
+                        error = json!(format!("step({p}): {e}"));
+                        break;
+                    }
+                    Err(_) => {
+                        error = json!(format!("step({p}): panic"));
+                        break;
+                    }
+                }
+            }
+            runs.push(json!({"parts": parts, "obs": obs, "err": error}));
+        }
+    }
+    json!({"ref": reference, "runs": runs, "err": null})
 }
 
 fn run_one(sc: &Value) -> Value {
@@ -236,6 +291,14 @@ pub fn handle(verb: &str, req: &Value, st: &mut State) -> Value {
                 .get("scenarios")
                 .and_then(|v| v.as_array())
                 .map(|a| a.iter().map(run_one).collect())
+                .unwrap_or_default();
+            json!({"ok": true, "results": results})
+        }
+        "split" => {
+            let results: Vec<Value> = req
+                .get("scenarios")
+                .and_then(|v| v.as_array())
+                .map(|a| a.iter().map(split_one).collect())
                 .unwrap_or_default();
             json!({"ok": true, "results": results})
         }
